@@ -120,4 +120,34 @@ func runC18(r *Run) {
 			}
 		}
 	}
+	// a context that has already adopted a handshake gets another one: same rule (adopt iff registered; a rejected one
+	// changes nothing), whatever it adopted before
+	for v1 := 1; v1 <= 2; v1++ {
+		for v2 := 0; v2 < 256; v2++ {
+			if !r.thorough() && v2 > 8 && v2%17 != 0 {
+				continue
+			}
+			for _, same := range []bool{true, false} {
+				ctx := protocol.NewContext(context.Background(), protocol.ClientSide)
+				ctx.Handshake(&protocol.Handshake{Version: uint8(v1), Codec: 1, Platform: 9})
+				h2 := &protocol.Handshake{Version: uint8(v2), Codec: 1, Platform: 9}
+				if !same {
+					h2.Codec, h2.Platform = 2, 3
+				}
+				err := ctx.Handshake(h2)
+				got := fmt.Sprintf("%v %d %d %d", err == nil, ctx.Version, ctx.Codec, ctx.Platform)
+				want := fmt.Sprintf("false %d 1 9", v1)
+				if v2 == 1 || v2 == 2 {
+					want = fmt.Sprintf("true %d %d %d", v2, h2.Codec, h2.Platform)
+				}
+				if got != want {
+					r.violate(Violation{What: "second handshake on a context: accepted iff the version is registered, adopted iff accepted", Case: fmt.Sprintf("first v%d, then v%d codec %d platform %d", v1, v2, h2.Codec, h2.Platform), Impl: got, Expect: want})
+				}
+				r.st.Evaluations++
+			}
+		}
+	}
+	r.count("ctx.second-handshake")
+	// the context of a connection obtained from the TCP dialer carries exactly the requested fields
+	c18DialContexts(r)
 }
